@@ -113,6 +113,19 @@ class _Anything(types.ModuleType):
         return _Anything(self.__name__ + "()")
 
 
+def _tqdm_module(name):
+    m = types.ModuleType(name)
+
+    def tqdm(it=None, *a, **k):
+        return it
+
+    tqdm.write = lambda *a, **k: None
+    m.tqdm = tqdm
+    m.trange = lambda *a, **k: range(*a)
+    m.auto = m
+    return m
+
+
 class _Log:
     def __getattr__(self, n):
         return lambda *a, **k: None
@@ -345,6 +358,8 @@ class World:
                             raise ImportError(f"cannot import name {f!r} from {name!r}")
                 return m
             return self.load(top) if "." in name else m
+        if top == "tqdm":
+            return _tqdm_module(name)
         if top in self.INERT_TOP:
             return _Anything(name)
         return _real_import(name, globals, locals, fromlist, level)
